@@ -361,7 +361,7 @@ def _post_exact(mon, call):
             op, circ = t.operator, t.circuit
             view = _circ_view(circ)
             terms = _terms(op)
-            ok = (_is_op(op) and view is not None and terms and circ.n_qubits <= 6 and not circ.free_symbols
+            ok = (_is_op(op) and view is not None and terms and circ.n_qubits <= 11 and not circ.free_symbols
                   and all(nm in G.REF_GATES for nm, _q, _p in view)
                   and max([q + 1 for ops, _c in terms for q, _o in ops] or [0]) <= circ.n_qubits
                   and all(_real(c) for _o, c in terms))
@@ -637,10 +637,24 @@ def run_case(ctx):
 
         n = rng.randint(1, 5)
         specs = []
+        wide = ctx.index % 6 == 5
+        if wide:
+            # registers of 9 - 10 qubits (beyond a byte of basis-index bits), few tasks: basis states with a rotation or
+            # two, Ising and general operators that reach the first and the last qubits
+            n = rng.randint(1, 2)
+            ctx.mon.note("exact:wide-register")
         for i in range(n):
-            width = rng.randint(1, 4)
-            op = G.rand_pauli_op(rng, width, i, scale) if rng.random() < 0.8 else G.rand_ising_op(rng, width, i, scale)
-            circ = G.rand_circ(rng, G.op_width(op)) if rng.random() < 0.85 else G.rand_basis_circ(rng, G.op_width(op))
+            width = rng.randint(1, 4) if not wide else rng.choice([9, 9, 10])
+            op = G.rand_pauli_op(rng, width, i, scale) if rng.random() < (0.8 if not wide else 0.3) else G.rand_ising_op(rng, width, i, scale)
+            if wide:
+                bits = [rng.randint(0, 1) for _ in range(width)]
+                bits[0] = bits[1] = 1  # the qubits a byte-wide shortcut loses sit at the front
+                ops_ = [("X", (q,), ()) for q, b in enumerate(bits) if b]
+                if rng.random() < 0.5:
+                    ops_.append(("RY", (rng.choice([0, 1, width - 1]),), (round(rng.uniform(0.3, 2.8), 3),)))
+                circ = {"n": width, "ops": ops_}
+            else:
+                circ = G.rand_circ(rng, G.op_width(op)) if rng.random() < 0.85 else G.rand_basis_circ(rng, G.op_width(op))
             specs.append({"kind": "exact", "op": op, "circ": circ, "shots": rng.choice([None, 0, 10])})
         if rng.random() < 0.5:
             G.alias_specs(rng, specs)
